@@ -198,6 +198,8 @@ pub struct Frame {
     pub log_end: usize,
     /// maximum number of workers of this frame that were registered and not exited at the same time
     pub max_live: usize,
+    /// number of `BeforeJoinOne` points seen: the k-th one precedes the join of the k-th spawned worker
+    pub joins: usize,
 }
 
 struct State {
@@ -685,6 +687,7 @@ fn hook_run_begin(info: &RunInfo) {
         log_begin,
         log_end: usize::MAX,
         max_live: 0,
+        joins: 0,
     });
     st.log.push(Event {
         slot: 0,
@@ -822,7 +825,11 @@ fn hook_spawner_point(p: SpawnerPoint, n: usize) {
             }
         }
         SpawnerPoint::BeforeJoinOne => {
-            let slot = st.frames[f].first_slot + n;
+            // handles are joined in spawn order; the scheduler counts the joins itself rather than trusting the
+            // index the library reports (a changed library might report a stale one and then block for real)
+            let k = st.frames[f].joins;
+            st.frames[f].joins += 1;
+            let slot = st.frames[f].first_slot + k;
             if slot < st.slots.len() && st.slots[slot].status != Status::Done {
                 st.slots[me].status = Status::BlockedJoinOn(slot);
             }
